@@ -11,8 +11,11 @@ A scenario is the JSON object that the TLA+ specs (FtpScope.tla / FtpScopeMon.tl
      'conc':   1|2      workers
      'mlsd':   bool     the server implements MLSD (otherwise 500 and the client falls back to LIST)}
 
-The server logs every command it receives together with the item (URL) the issuing worker task is processing.
-The URL table is traced (check_out / add_many / check_in) for the strict trace spec.
+The server logs every command with a path argument (LIST MLSD NLST CWD STAT MLST RETR SIZE MDTM) together with the item
+(URL) the issuing worker task is processing; a relative argument is resolved against the directory selected by CWD, so
+that a client which changes directory and then lists "here" is judged by what it listed.  The start of every visit
+(begin) and the URL table calls (add_many / check_in) are recorded for the strict trace spec.  A crawl that does not
+end (CPU-time watchdog, command cap) becomes outcome 'hang'.
 """
 import asyncio
 import functools
